@@ -109,6 +109,19 @@ impl ByteRange {
         }
     }
 
+    /// Returns true if the byte range lies within bytes of length `size`.
+    ///
+    /// [`start`](ByteRange::start), [`end`](ByteRange::end) and [`length`](ByteRange::length) are only meaningful for valid byte ranges.
+    #[must_use]
+    pub fn is_valid(&self, size: u64) -> bool {
+        match self {
+            Self::FromStart(offset, length) => offset
+                .checked_add(length.unwrap_or(0))
+                .is_some_and(|end| end <= size),
+            Self::Suffix(length) => *length <= size,
+        }
+    }
+
     /// Return the exclusive end of a byte range. `size` is the size of the entire bytes.
     #[must_use]
     pub fn end(&self, size: u64) -> u64 {
@@ -345,6 +358,13 @@ pub fn extract_byte_ranges_read<T: Read>(
     byte_ranges: &[ByteRange],
 ) -> std::io::Result<Vec<Vec<u8>>> {
     // Could this be cleaner/more efficient?
+
+    if let Some(byte_range) = byte_ranges.iter().find(|r| !r.is_valid(size)) {
+        return Err(std::io::Error::new(
+            std::io::ErrorKind::InvalidInput,
+            InvalidByteRangeError(*byte_range, size),
+        ));
+    }
 
     // Allocate output and find the endpoints of the "segments" of bytes which must be read
     let mut out = Vec::with_capacity(byte_ranges.len());
